@@ -47,7 +47,15 @@ def handleFile (prop : String) (kv : KV) : String :=
     let flags := (s.get 20).toNat
     let alphaStillLossless := names.startsWith "VP8X" && flags / 16 % 2 == 1 && flags / 2 % 2 == 0 &&
       (names.startsWith "VP8X+VP8L" || names.startsWith "VP8X+ICCP+VP8L")
-    if ref == "ok" && impl != "ok" then
+    let frame := kv.get? "kind" == some "frame"
+    if frame && ref == "ok" && impl != "ok" && prop == "C08" then
+      -- an animation frame smaller than the canvas whose lossless alpha the reference decodes for the FRAME's dimensions
+      s!"SPEC {id} which=rejected-frame-whose-lossless-alpha-the-reference-decodes sig={prop}:frame-alpha impl={impl} model={m} chunks={names}"
+    else if frame && ref != "ok" && impl == "ok" && prop == "C07" then
+      s!"SPEC {id} which=accepted-frame-whose-lossless-alpha-the-reference-rejects sig={prop}:frame-alpha impl={impl} model={m} chunks={names}"
+    else if frame && m != impl then s!"DIFF {id} model={m} impl={impl}"
+    else if frame then s!"OK {id} tags=frame-alpha,{if impl == "ok" then "accepted" else "rejected"},ref-{ref}"
+    else if ref == "ok" && impl != "ok" then
       let sg := if alphaStillLossless then "vp8x-alpha-flag-still-lossless-without-alph" else "other"
       s!"SPEC {id} which=rejected-file-libwebp-produced-and-decodes sig={prop}:file:{sg} impl={impl} model={m} chunks={names}"
     else if m != impl then s!"DIFF {id} model={m} impl={impl} sig={if alphaStillLossless then prop ++ ":file:vp8x-alpha-flag-still-lossless-without-alph" else ""}"
@@ -55,7 +63,7 @@ def handleFile (prop : String) (kv : KV) : String :=
   | _, _, _ => "ERR ? missing-field"
 
 def handle (prop : String) (kv : KV) : String :=
-  if kv.get? "kind" == some "file" then handleFile prop kv else
+  if kv.get? "kind" == some "file" || kv.get? "kind" == some "frame" then handleFile prop kv else
   match kv.get? "kind", kv.hex? "data", kv.get? "impl", kv.get? "ref" with
   | some kind, some data, some impl, some ref =>
     let id := kv.getD "id" "?"
